@@ -160,6 +160,34 @@ def _flavor_of(x):
     return 'py'
 
 
+def _npint_of(o):
+    """(name, min, max) if o is a value of a NumPy integer dtype narrower than 64 bits (64-bit counters are assumed not to
+    overflow: no stream is that long), 'weak' for Python ints, None for everything else (floats widen the result)"""
+    if isinstance(o, Sym):
+        if o.npint is not None:
+            return o.npint
+        return 'weak' if (o.flavor == 'py' and o.is_int) else None
+    if isinstance(o, bool):
+        return None
+    if isinstance(o, int):
+        return 'weak'
+    if _is_np_number(o):
+        import numpy as np
+        if isinstance(o, np.integer) and o.dtype.itemsize < 8:
+            ii = np.iinfo(o.dtype)
+            return (o.dtype.name, int(ii.min), int(ii.max))
+    return None
+
+
+def _narrow_result(a, b):
+    na, nb = _npint_of(a), _npint_of(b)
+    if isinstance(na, tuple) and (nb == 'weak' or nb == na):
+        return na
+    if isinstance(nb, tuple) and na == 'weak':
+        return nb
+    return None
+
+
 def _join_flavor(a, b):
     return 'np' if 'np' in (_flavor_of(a), _flavor_of(b)) else 'py'
 
@@ -216,13 +244,14 @@ class SymBool:
 
 class Sym:
     """Symbolic number.  z3 Int or Real term; flavour 'py' (python float/int) or 'np' (NumPy scalar)."""
-    __slots__ = ('t', 'flavor')
+    __slots__ = ('t', 'flavor', 'npint')
     __array_priority__ = 1000
     __array_ufunc__ = None  # make numpy defer to our reflected operators
 
-    def __init__(self, t, flavor='py'):
+    def __init__(self, t, flavor='py', npint=None):
         self.t = t
         self.flavor = flavor
+        self.npint = npint      # (name, min, max) of a NARROW NumPy integer dtype this value lives in, else None
 
     # -- helpers
     def _w(self, t, o=None):
@@ -262,7 +291,18 @@ class Sym:
         a, b = (ot, self.t) if refl else (self.t, ot)
         if a.sort() != b.sort():
             a, b = to_real(a), to_real(b)
-        return self._w(f(a, b), o)
+        res = self._w(f(a, b), o)
+        narrow = _narrow_result(self, o)
+        if narrow is not None and res.is_int:
+            # NEP 50: a Python int is "weak" - <narrow NumPy integer> op <Python int> stays in the narrow dtype and wraps
+            # around silently (RuntimeWarning only).  The engine does not model the wrapped value; it demands that it cannot happen.
+            res.npint = narrow
+            env = cur()
+            if getattr(env, 'mode', 'sym') == 'sym':
+                env.claim('no_silent_integer_wraparound', z3.And(res.t >= narrow[1], res.t <= narrow[2]),
+                          detail=f"arithmetic in NumPy dtype {narrow[0]} (a Python int operand does not widen it) can leave "
+                                 f"[{narrow[1]}, {narrow[2]}] and wrap around silently")
+        return res
 
     def __add__(self, o): return self._bin(o, lambda a, b: a + b)
     def __radd__(self, o): return self._bin(o, lambda a, b: a + b, True)
